@@ -85,3 +85,42 @@ def scanStream (resets resetIsMax : Nat) (p : Cp → Bool) (left : Nat) (s : Tex
     (fun x => mkToken s x.1 x.2.1 x.2.2)
 
 end TantivyModel.Tok
+
+namespace TantivyModel.Tok
+
+/-! ### filters that write into a reusable `String` buffer and swap it with the token text -/
+
+/-- `h(text)` is appended to the buffer (after `clear()`, if the code clears), the buffer and the
+token text are swapped: the new token text and what the buffer holds afterwards -/
+def viaBuffer (clears : Nat) (h : List Nat → List Nat) (buf text : List Nat) :
+    List Nat × List Nat :=
+  ((if clears = 0 then buf else []) ++ h text, text)
+
+/-- LowerCaser: ASCII texts are lower-cased in place, others go through the buffer
+-- mirrors: src/tokenizer/lower_caser.rs::to_lowercase_unicode -/
+def lowerStep (clears : Nat) (f : Nat → List Nat) (buf text : List Nat) : List Nat × List Nat :=
+  if isAsciiText text then (text.map asciiLower, buf)
+  else viaBuffer clears (fun t => t.flatMap f) buf text
+
+/-- AsciiFoldingFilter: ASCII texts are left alone, others go through the buffer -/
+def foldStep (clears : Nat) (f : Nat → Option (List Nat)) (buf text : List Nat) :
+    List Nat × List Nat :=
+  if isAsciiText text then (text, buf)
+  else viaBuffer clears (fun t => t.flatMap (fun c => (f c).getD [c])) buf text
+
+/-- Stemmer: an owned result replaces the text, a borrowed one goes through the buffer
+(`owned` = which case the stemming library reports: a parameter) -/
+def stemStep (clears : Nat) (g : List Nat → List Nat) (owned : List Nat → Bool)
+    (buf text : List Nat) : List Nat × List Nat :=
+  if owned text then (g text, buf) else viaBuffer clears g buf text
+
+/-- a stream of such a filter over the tokens of its tail, threading the buffer -/
+def bufferedStream (step : List Nat → List Nat → List Nat × List Nat) :
+    List Nat → List Token → List Token × List Nat
+  | buf, [] => ([], buf)
+  | buf, t :: ts =>
+    let r := step buf t.text
+    let rest := bufferedStream step r.2 ts
+    ({ t with text := r.1 } :: rest.1, rest.2)
+
+end TantivyModel.Tok
